@@ -1226,6 +1226,21 @@ func (c *Ctx) checkConfigSemantics(r *Report, ro *Roles, rule string) bool {
 				{"an unknown layout type", func(m map[string]string) { m["logger.l1.layout.type"] = "NoSuchLayout" }},
 				{"an unknown layout type in the appender", func(m map[string]string) { m["appender.a1.layout.type"] = "NoSuchLayout" }},
 				{"no appender reference in a logger that needs one", func(m map[string]string) { delete(m, "logger.l1.appenderRef[0].ref") }},
+				{"a second logger that lists the same tag", func(m map[string]string) {
+					for k, v := range cloneCfg(m) {
+						if strings.HasPrefix(k, "logger.l1.") {
+							m["logger.l2."+strings.TrimPrefix(k, "logger.l1.")] = v
+						}
+					}
+				}},
+				{"a second logger that lists the same tag, both given the same explicit name attribute", func(m map[string]string) {
+					for k, v := range cloneCfg(m) {
+						if strings.HasPrefix(k, "logger.l1.") {
+							m["logger.l2."+strings.TrimPrefix(k, "logger.l1.")] = v
+						}
+					}
+					m["logger.l1.name"], m["logger.l2.name"] = "twin", "twin"
+				}},
 				{"no appenders at all", func(m map[string]string) {
 					for k := range m {
 						if strings.HasPrefix(k, "appender.") {
